@@ -4,8 +4,8 @@ import RvModel.Spec.C08
 import RvModel.Lemmas.C08
 /-!
   C08 (part B): median, mode and entropy of every distribution equal the textbook closed forms of Spec/C08.lean
-  over exact reals — and the `_counterexample`s of part A/B: every summary for which the code returns something
-  else than the textbook value (confirmed numerically against the real implementation and by independent
+  over exact reals — and the `_counterexample`s of part A/B: every summary for which the (unrepaired) code returns
+  something else than the textbook value (confirmed numerically against the real implementation and by independent
   quadrature of the object's own density, see the report of C08).
 
   Style: as in Props/C08A.lean — `Option R` summaries are compared through `.map R.val`, real-valued ones
@@ -239,6 +239,13 @@ theorem Gaussian_mode (d : Gen.Gaussian R) (hs : 0 < d.sigma.val) :
   simp only [Gen.Gaussian.mode_real, Spec.Gaussian.mode]
 example : 0 < (⟨⟨1⟩, ⟨2⟩⟩ : Gen.Gaussian R).sigma.val := by norm_num
 
+-- @site Gev.mode_real
+theorem Gev_mode (d : Gen.Gev R) (hs : 0 < d.scale.val) (hξ : -1 ≤ d.shape.val) :
+    (Gen.Gev.mode_real d).map R.val = (Spec.Gev.mode d).map R.val := by
+  simp only [Gen.Gev.mode_real, Spec.Gev.mode]
+  c08_split
+example : 0 < (⟨⟨0⟩, ⟨2⟩, ⟨1/2⟩⟩ : Gen.Gev R).scale.val ∧ -1 ≤ (⟨⟨0⟩, ⟨2⟩, ⟨1/2⟩⟩ : Gen.Gev R).shape.val := by norm_num
+
 -- @site InvChiSquared.mode_real
 theorem InvChiSquared_mode (d : Gen.InvChiSquared R) (hv : 0 < d.v.val) :
     (Gen.InvChiSquared.mode_real d).map R.val = (Spec.InvChiSquared.mode d).map R.val := by
@@ -406,6 +413,29 @@ theorem Gaussian_entropy (d : Gen.Gaussian R) (hs : 0 < d.sigma.val) :
   ring
 example : 0 < (⟨⟨1⟩, ⟨2⟩⟩ : Gen.Gaussian R).sigma.val := by norm_num
 
+-- @site Geometric.entropy
+theorem Geometric_entropy (d : Gen.Geometric R) (hp0 : 0 < d.p.val) (hp1 : d.p.val < 1) :
+    (Gen.Geometric.entropy d).val = (Spec.Geometric.entropy d).val := by
+  have h1 : ¬ ((1:ℝ) - d.p.val = 0) := by intro h; linarith
+  have h0 : ¬ (d.p.val = 0) := hp0.ne'
+  simp only [Gen.Geometric.entropy, Spec.Geometric.entropy, Spec.xlnx]
+  c08_norm
+  simp only [C08L.lit00, C08L.lit10, if_neg h0, if_neg h1]
+  c08_norm
+  simp only [C08L.lit10]
+  ring
+example : 0 < (⟨⟨1/3⟩⟩ : Gen.Geometric R).p.val ∧ (⟨⟨1/3⟩⟩ : Gen.Geometric R).p.val < 1 := by norm_num
+
+-- @site Kumaraswamy.entropy
+theorem Kumaraswamy_entropy (d : Gen.Kumaraswamy R) (ha : 0 < d.a.val) (hb : 0 < d.b.val) :
+    (Gen.Kumaraswamy.entropy d).val = (Spec.Kumaraswamy.entropy d).val := by
+  simp only [Gen.Kumaraswamy.entropy, Spec.Kumaraswamy.entropy, Gen.Kumaraswamy.ab_ln]
+  c08_norm
+  norm_num1
+  rw [Real.log_mul ha.ne' hb.ne']
+  ring
+example : 0 < (⟨⟨2⟩, ⟨3⟩⟩ : Gen.Kumaraswamy R).a.val ∧ 0 < (⟨⟨2⟩, ⟨3⟩⟩ : Gen.Kumaraswamy R).b.val := by norm_num
+
 -- @site Gev.entropy
 theorem Gev_entropy (d : Gen.Gev R) (hs : 0 < d.scale.val) :
     (Gen.Gev.entropy d).val = (Spec.Gev.entropy d).val := by
@@ -501,22 +531,6 @@ theorem LogNormal_mode_counterexample :
   norm_num at h
   linarith [Real.exp_pos (-1 : ℝ)]
 
-/-- FULL STATEMENT (false): Gen.Geometric.entropy d = Spec.Geometric.entropy d.
-    `dist/geometric.rs` uses `log2` (bits) while every other entropy of the crate is in nats. -/
--- @site Geometric.entropy
-theorem Geometric_entropy_counterexample :
-    (Gen.Geometric.entropy (⟨⟨1/2⟩⟩ : Gen.Geometric R)).val ≠ (Spec.Geometric.entropy (⟨⟨1/2⟩⟩ : Gen.Geometric R)).val := by
-  simp only [Gen.Geometric.entropy, Spec.Geometric.entropy, Spec.xlnx]
-  c08_norm
-  norm_num1
-  have hb : Real.logb 2 (1 / 2) = -1 := by
-    rw [one_div, Real.logb_inv, Real.logb_self_eq_one (by norm_num)]
-  have hl : Real.log (1 / 2) = -Real.log 2 := by rw [one_div, Real.log_inv]
-  have hlog2 := C08L.log_two_lt_one
-  norm_num [hb, hl]
-  intro h
-  linarith
-
 /-- FULL STATEMENT (false): Gen.DiscreteUniform.entropy d = Spec.DiscreteUniform.entropy d.
     `dist/discrete_uniform.rs` returns ln(b − a), the support has b − a + 1 points; {0,1} gets entropy 0. -/
 -- @site DiscreteUniform.entropy
@@ -541,16 +555,6 @@ theorem DiscreteUniform_kurtosis_counterexample :
   c08_norm
   norm_num
 
-/-- FULL STATEMENT (false): Gen.InvGaussian.skewness d = Spec.InvGaussian.skewness d.
-    the code has 2·√(μ/λ), the skewness is 3·√(μ/λ). -/
--- @site InvGaussian.skewness
-theorem InvGaussian_skewness_counterexample :
-    (Gen.InvGaussian.skewness (⟨⟨1⟩, ⟨1⟩⟩ : Gen.InvGaussian R)).map R.val
-      ≠ (Spec.InvGaussian.skewness (⟨⟨1⟩, ⟨1⟩⟩ : Gen.InvGaussian R)).map R.val := by
-  simp only [Gen.InvGaussian.skewness, Spec.InvGaussian.skewness]
-  c08_norm
-  norm_num
-
 /-- FULL STATEMENT (false): Gen.Skellam.kurtosis d = Spec.Skellam.kurtosis d.
     the code returns the non-excess kurtosis 3 + 1/(μ₁+μ₂) whereas every other `Kurtosis` impl is excess kurtosis. -/
 -- @site Skellam.kurtosis
@@ -561,44 +565,17 @@ theorem Skellam_kurtosis_counterexample :
   c08_norm
   norm_num
 
-/-- FULL STATEMENT (false): Gen.Gev.mode_real d = Spec.Gev.mode d.
-    the code computes (σ·(1+ξ)^(−ξ) − 1)/ξ instead of σ·((1+ξ)^(−ξ) − 1)/ξ (right only for σ = 1). -/
+/-- FULL STATEMENT (false without `-1 ≤ ξ`): Gen.Gev.mode_real d = Spec.Gev.mode d for every valid d.
+    For ξ < −1 the density is unbounded at the upper end point of the support (no mode), the code still returns
+    a value (`Some(NaN)` on binary64 for non-integer ξ, a finite number for ξ = −2, −3, …). -/
 -- @site Gev.mode_real
 theorem Gev_mode_counterexample :
-    (Gen.Gev.mode_real (⟨⟨0⟩, ⟨2⟩, ⟨1/2⟩⟩ : Gen.Gev R)).map R.val
-      ≠ (Spec.Gev.mode (⟨⟨0⟩, ⟨2⟩, ⟨1/2⟩⟩ : Gen.Gev R)).map R.val := by
+    (Gen.Gev.mode_real (⟨⟨0⟩, ⟨1⟩, ⟨-2⟩⟩ : Gen.Gev R)).map R.val
+      ≠ (Spec.Gev.mode (⟨⟨0⟩, ⟨1⟩, ⟨-2⟩⟩ : Gen.Gev R)).map R.val := by
   simp only [Gen.Gev.mode_real, Spec.Gev.mode]
   c08_norm
   norm_num
-  intro h
-  linarith
-
-/-- extent of the defect: the code agrees with the textbook mode exactly on the slice σ = 1 (not a proof of the property) -/
--- @site Gev.mode_real
-theorem Gev_mode_scale_one (d : Gen.Gev R) (hs : d.scale.val = 1) (hξ : -1 ≤ d.shape.val) :
-    (Gen.Gev.mode_real d).map R.val = (Spec.Gev.mode d).map R.val := by
-  simp only [Gen.Gev.mode_real, Spec.Gev.mode]
-  c08_norm
-  norm_num1
-  rw [hs]
-  split_ifs <;> (try simp only [Option.map_some, Option.map_none, Option.some.injEq]) <;>
-    first | done | (exfalso; linarith) | (ring_nf; done)
-example : (⟨⟨0⟩, ⟨1⟩, ⟨1/2⟩⟩ : Gen.Gev R).scale.val = 1 := rfl
-
-/-- FULL STATEMENT (false): Gen.Kumaraswamy.entropy d = Spec.Kumaraswamy.entropy d.
-    the code takes the harmonic number H_b to be ψ(b) + γ; it is ψ(b+1) + γ. -/
--- @site Kumaraswamy.entropy
-theorem Kumaraswamy_entropy_counterexample :
-    (Gen.Kumaraswamy.entropy (⟨⟨2⟩, ⟨1⟩⟩ : Gen.Kumaraswamy R)).val
-      ≠ (Spec.Kumaraswamy.entropy (⟨⟨2⟩, ⟨1⟩⟩ : Gen.Kumaraswamy R)).val := by
-  simp only [Gen.Kumaraswamy.entropy, Spec.Kumaraswamy.entropy, Gen.Kumaraswamy.ab_ln]
-  c08_norm
-  norm_num1
-  have h := C08L.digammaR_add_one (x := 1) one_pos
-  norm_num at h
-  rw [h, Real.log_one]
-  intro h'
-  linarith
+  exact fun h => by cases h
 
 end C08
 
@@ -623,6 +600,7 @@ end C08
 #print axioms C08.Gamma_mode
 #print axioms C08.Gamma_mode_none_iff
 #print axioms C08.Gaussian_mode
+#print axioms C08.Gev_mode
 #print axioms C08.InvChiSquared_mode
 #print axioms C08.InvGamma_mode
 #print axioms C08.InvGaussian_mode
@@ -642,6 +620,8 @@ end C08
 #print axioms C08.Exponential_entropy
 #print axioms C08.Gamma_entropy
 #print axioms C08.Gaussian_entropy
+#print axioms C08.Geometric_entropy
+#print axioms C08.Kumaraswamy_entropy
 #print axioms C08.Gev_entropy
 #print axioms C08.InvGamma_entropy
 #print axioms C08.Laplace_entropy
@@ -651,11 +631,7 @@ end C08
 #print axioms C08.VonMises_entropy
 #print axioms C08.Pareto_entropy_counterexample
 #print axioms C08.LogNormal_mode_counterexample
-#print axioms C08.Geometric_entropy_counterexample
 #print axioms C08.DiscreteUniform_entropy_counterexample
 #print axioms C08.DiscreteUniform_kurtosis_counterexample
-#print axioms C08.InvGaussian_skewness_counterexample
 #print axioms C08.Skellam_kurtosis_counterexample
 #print axioms C08.Gev_mode_counterexample
-#print axioms C08.Gev_mode_scale_one
-#print axioms C08.Kumaraswamy_entropy_counterexample
